@@ -13,6 +13,7 @@ LEVEL = "exploration"
 TECHNIQUE = ('deterministic simulation, refinement against a reference model: real writers of both integrations -> independent wire codec + strict spec state machine as the reader')
 LEVEL_NOTE = ('two-party refinement with the reader replaced by an independent model written from rdf.proto; sampled inputs/configurations')
 OPTIMIZED_EVERY = 25      # every 25th run is executed in a child interpreter started with python -O
+PBPY_EVERY = 50           # every 50th run (offset 6) is executed with protobuf's pure-Python backend
 COMPILED_EVERY = 25       # every 25th run (offset 12) is executed in a child that imports a mypyc build of the tree
 RUNS = {"quick": 80000, "thorough": 1500000}
 RULE = ("every byte string written by the real serializers in C01/C02-style seeded runs (both integrations, "
